@@ -158,7 +158,7 @@ def proof_stage(prop, plan, tier, registry):
             else:
                 jobs.append((name, smt, timeout_ms, True))
     hints = json.load(open(HINTS_PATH)) if os.path.exists(HINTS_PATH) else {}
-    jobs = [j + ("cvc5",) if (j[3] and hints.get(norm_label(j[0])) == "cvc5") else j for j in jobs]
+    jobs = [j + (hints[j[0]],) if (j[3] and j[0] in hints) else j for j in jobs]  # keyed by the full obligation name (path included)
     res = solve_all(jobs)
     # anything left open gets a second, longer, less crowded attempt before a verdict is drawn
     # (keeps verdicts stable when the machine is busy)
@@ -168,17 +168,17 @@ def proof_stage(prop, plan, tier, registry):
         open_ = [j for j in jobs if j[3] and res.get(j[0], {}).get("result") not in ("unsat", "sat") and norm_label(j[0]) not in _known_obl]
         if not open_ or len(open_) > most or os.environ.get("VERIF_NO_RETRY"):
             break
-        # each open obligation: both solvers again with a longer limit, and z3 under two other random seeds
+        # each open obligation: both solvers again with a longer limit, z3 under two other random seeds, and the z3 binary
         retry = []
         for j in open_:
             first = j[4] if len(j) > 4 else "z3"
             retry.append((j[0], j[1], factor * j[2], True, first))
-            for seed in (11, 23):
+            for seed in (11, 23, -1):  # -1: the stand-alone z3 binary
                 retry.append((j[0] + "\x00%d" % seed, j[1], factor * j[2], False, "z3", seed))
         res2 = solve_all(retry, workers=workers)
         for j in open_:
             n = j[0]
-            attempts = [res2[k] for k in (n, n + "\x0011", n + "\x0023") if k in res2]
+            attempts = [res2[k] for k in (n, n + "\x0011", n + "\x0023", n + "\x00-1") if k in res2]
             spent = sum(r.get("time") or 0.0 for r in attempts)
             best = next((r for r in attempts if r["result"] in ("unsat", "sat")), attempts[0])
             best = dict(best, name=n, time=round(spent + (res[n].get("time") or 0.0), 3), retried=factor)
@@ -474,6 +474,8 @@ def rebaseline(props):
     registry = load_contracts()
     base = json.load(open(BASELINE_PATH)) if os.path.exists(BASELINE_PATH) else {}
     hints = json.load(open(HINTS_PATH)) if os.path.exists(HINTS_PATH) else {}
+    if not props:
+        hints = {}  # a full rebaseline starts from scratch
     for prop in props or list(PLAN):
         plan = PLAN[prop]
         if not (plan.get("functions") or plan.get("extra")):
@@ -484,12 +486,11 @@ def rebaseline(props):
             bk = getattr(rep, "bkey", rep.qual)
             # which back end to try first next time (a performance hint only: both are still tried)
             for o in rep.obligations:
-                if o["kind"] != "cover" and o.get("backend") in ("z3", "cvc5"):
-                    lab = norm_label(o["name"])
-                    if o["backend"] == "cvc5":
-                        hints[lab] = "cvc5"
-                    elif lab in hints and not any(x.get("backend") == "cvc5" for x in rep.obligations if norm_label(x["name"]) == lab):
-                        del hints[lab]
+                if o["kind"] != "cover" and o.get("backend"):
+                    if o["backend"] in ("cvc5", "z3-cli", "z3-seed11", "z3-seed23"):
+                        hints[o["name"]] = o["backend"]
+                    else:
+                        hints.pop(o["name"], None)
             base[bk] = {lab: "discharged" for lab, st in labels.items() if st == "discharged"}
             bad = {lab: st for lab, st in labels.items() if st != "discharged"}
             print(f"{bk}: {len(base[bk])} discharged labels; not discharged: {bad}; aborts: {len(rep.aborts)}")
@@ -534,9 +535,14 @@ def main():
     for p in a.prop:
         try:
             rc = max(rc, run_property(p, a.tier, seed))
-        except Exception:
+        except Exception as e:
             traceback.print_exc()
-            print(f"CHECKER-ERROR property={p} internal error")
+            try:
+                os.makedirs(REPLAY_DIR, exist_ok=True)
+                open(os.path.join(REPLAY_DIR, f"{p}-checker-error.txt"), "w").write(traceback.format_exc())
+            except OSError:
+                pass
+            print(f"CHECKER-ERROR property={p} internal error: {type(e).__name__}: {str(e)[:200]}")
             rc = max(rc, 3)
     sys.exit(rc)
 
